@@ -239,15 +239,15 @@ def r1(ck, F, rid="C02.R1"):
 
 
 # ---------------------------------------------------------------------- R2
-def r2(ck, F):
+def r2(ck, F, rid="C02.R2"):
     gd = F.body(D + "get_default")
-    if not ck.anchor("C02.R2", "get_default", gd):
+    if not ck.anchor(rid, "get_default", gd):
         return
     # a thread whose thread-local state is already destroyed (it is exiting) cannot have a live scope: what it emits from a
     # TLS destructor belongs to the global default, exactly as on the fast path -- the AccessError fallback of
     # get_default_slow must hand the callback get_global(), not the no-op dispatcher
     slow = F.body(D + "get_default_slow")
-    if ck.anchor("C02.R2", "get_default_slow", slow):
+    if ck.anchor(rid, "get_default_slow", slow):
         uo = [t for bb, t in slow.calls() if t["callee"].get("method") in ("unwrap_or_else", "unwrap_or", "map_err", "or_else", "unwrap_or_default")]
         fb = None
         for t in uo:
@@ -264,18 +264,18 @@ def r2(ck, F):
                 if p.end == "return" and any(show(c[0]).startswith("discr(try_with(") and c[1] == 1 for c in p.conds):
                     errp.append([c[1].get("path", "") for c in p.calls])
             if errp and all(D + "get_global" in calls and D + "Dispatch::none" not in calls for calls in errp):
-                ck.ok("C02.R2", key, fn=slow.path)
+                ck.ok(rid, key, fn=slow.path)
             elif errp:
-                ck.bad("C02.R2", key, where(slow.raw["sp"]), "on the AccessError edge the callback is handed %s: an emission made while the thread's locals are being "
+                ck.bad(rid, key, where(slow.raw["sp"]), "on the AccessError edge the callback is handed %s: an emission made while the thread's locals are being "
                        "destroyed is discarded whenever any other thread holds a scope" % sorted({c.rsplit("::", 1)[-1] for calls in errp for c in calls if c}), fn=slow.path)
             else:
-                ck.bad("C02.R2", key, where(slow.raw["sp"]), "no fallback found for a failed thread-local access (shape not recognised)", fn=slow.path)
+                ck.bad(rid, key, where(slow.raw["sp"]), "no fallback found for a failed thread-local access (shape not recognised)", fn=slow.path)
         else:
             calls = [t["callee"].get("path") for bb, t in fb.calls()]
             if D + "get_global" in calls and D + "Dispatch::none" not in calls:
-                ck.ok("C02.R2", key, fn=fb.path)
+                ck.ok(rid, key, fn=fb.path)
             else:
-                ck.bad("C02.R2", key, where(fb.raw["sp"]), "the fallback hands the callback %s: an emission made while the thread's locals are being destroyed is discarded "
+                ck.bad(rid, key, where(fb.raw["sp"]), "the fallback hands the callback %s: an emission made while the thread's locals are being destroyed is discarded "
                        "whenever any other thread holds a scope, but delivered to the global default when none does" % [c.rsplit("::", 1)[-1] for c in calls if c], fn=fb.path)
     rows = {}
     for p in PathEval(gd).run():
@@ -295,19 +295,19 @@ def r2(ck, F):
             (txt.startswith("(0 Eq ") and val != 0) or (txt.startswith("(0 Ne ") and val == 0)
         ok = "load(" in txt and "SCOPED_COUNT" in txt and zero_edge
     if ok:
-        ck.ok("C02.R2", "fast path iff SCOPED_COUNT == 0", fn=gd.path, detail={str(k): v for k, v in rows.items()})
-        ck.ok("C02.R2", "slow path otherwise", fn=gd.path)
+        ck.ok(rid, "fast path iff SCOPED_COUNT == 0", fn=gd.path, detail={str(k): v for k, v in rows.items()})
+        ck.ok(rid, "slow path otherwise", fn=gd.path)
     else:
-        ck.bad("C02.R2", "fast path iff SCOPED_COUNT == 0", where(gd.raw["sp"]), "decision table of get_default is %s" % rows)
+        ck.bad(rid, "fast path iff SCOPED_COUNT == 0", where(gd.raw["sp"]), "decision table of get_default is %s" % rows)
 
 
 # ---------------------------------------------------------------------- R3
-def r3(ck, F):
+def r3(ck, F, rid="C02.R3"):
     allowed = {D + "State::set_default::{closure#0}",
                "<%sDefaultGuard as core::ops::drop::Drop>::drop::{closure#0}" % D,
                "<%sDefaultGuard as core::ops::drop::Drop>::drop" % D}
     state_adt = D + "State"
-    if not ck.anchor("C02.R3", "State", F.adts.get(state_adt)):
+    if not ck.anchor(rid, "State", F.adts.get(state_adt)):
         return
     # ... and private helpers that only those two reach (a few lines of set_default / the guard's drop moved into a function)
     import re as _re
@@ -347,20 +347,20 @@ def r3(ck, F):
                     # taint: no get_global() in a body that writes the per-thread default
                     gg = [1 for _, tt in b.calls() if tt["callee"]["path"] == D + "get_global"]
                     if gg:
-                        ck.bad("C02.R3", key, where(t["sp"]),
+                        ck.bad(rid, key, where(t["sp"]),
                                "a body that writes the per-thread default also calls get_global(): the (possibly unset) global default would be cached per thread", fn=b.path)
                     else:
-                        ck.ok("C02.R3", key, fn=b.path)
+                        ck.ok(rid, key, fn=b.path)
                 else:
-                    ck.bad("C02.R3", key, where(t["sp"]),
+                    ck.bad(rid, key, where(t["sp"]),
                            "mutable access to the per-thread default outside set_default/guard drop: readers must fall back to get_global() without caching it", fn=b.path)
             else:
                 n_reads += 1
-                ck.ok("C02.R3", key, fn=b.path, nontrivial=False)
+                ck.ok(rid, key, fn=b.path, nontrivial=False)
     # the readers fall back to get_global() on None
     for rp in (D + "get_default_slow::{closure#0}", "%sEntered::<'a>::current::{closure#0}" % D):
         rb = F.body(rp)
-        if not ck.anchor("C02.R3", rp, rb):
+        if not ck.anchor(rid, rp, rb):
             continue
         rows = {}
         for p in PathEval(rb).run():
@@ -387,20 +387,20 @@ def r3(ck, F):
                         elif show(alt) == "get_global()":
                             combinator = True
         if combinator:
-            ck.ok("C02.R3", key, fn=rp, detail="Option combinator with get_global() as the None alternative")
+            ck.ok(rid, key, fn=rp, detail="Option combinator with get_global() as the None alternative")
         elif D + "get_global" in none_calls and D + "get_global" not in some_calls:
-            ck.ok("C02.R3", key, fn=rp)
+            ck.ok(rid, key, fn=rp)
         else:
-            ck.bad("C02.R3", key, where(rb.raw["sp"]), "reader table: None->%s Some->%s" % (none_calls, some_calls), fn=rp)
+            ck.bad(rid, key, where(rb.raw["sp"]), "reader table: None->%s Some->%s" % (none_calls, some_calls), fn=rp)
 
 
 # ---------------------------------------------------------------------- R4
-def r4(ck, F):
+def r4(ck, F, rid="C02.R4"):
     GD = D + "GLOBAL_DISPATCH"
     GI = D + "GLOBAL_INIT"
     sg = F.body(D + "set_global_default")
     gg = F.body(D + "get_global")
-    if not (ck.anchor("C02.R4", "set_global_default", sg) and ck.anchor("C02.R4", "get_global", gg)):
+    if not (ck.anchor(rid, "set_global_default", sg) and ck.anchor(rid, "get_global", gg)):
         return
     # writers / readers of GLOBAL_DISPATCH anywhere in the crate
     writers, readers = [], []
@@ -420,21 +420,21 @@ def r4(ck, F):
     wfns = {b.path for b, _ in writers}
     rfns = {b.path for b, _ in readers}
     if wfns == {sg.path}:
-        ck.ok("C02.R4", "GLOBAL_DISPATCH written only in set_global_default", fn=sg.path)
+        ck.ok(rid, "GLOBAL_DISPATCH written only in set_global_default", fn=sg.path)
     else:
-        ck.bad("C02.R4", "GLOBAL_DISPATCH written only in set_global_default", str(sorted(wfns)), "writers: %s" % sorted(wfns))
+        ck.bad(rid, "GLOBAL_DISPATCH written only in set_global_default", str(sorted(wfns)), "writers: %s" % sorted(wfns))
     if rfns <= {gg.path} and rfns:
-        ck.ok("C02.R4", "GLOBAL_DISPATCH read only in get_global", fn=gg.path)
+        ck.ok(rid, "GLOBAL_DISPATCH read only in get_global", fn=gg.path)
     else:
-        ck.bad("C02.R4", "GLOBAL_DISPATCH read only in get_global", str(sorted(rfns)), "readers: %s" % sorted(rfns))
+        ck.bad(rid, "GLOBAL_DISPATCH read only in get_global", str(sorted(rfns)), "readers: %s" % sorted(rfns))
     # CAS guarded single write
     cas = [(bb, t) for b, bb, t, m in atomic_calls(F, GI, {"compare_exchange"}) if b is sg]
     stores = [(bb, t) for b, bb, t, m in atomic_calls(F, GI, {"store", "swap"}) if b is sg]
     other_writers = [b.path for b, bb, t, m in atomic_calls(F, GI, {"store", "swap", "compare_exchange", "fetch_add", "fetch_or", "compare_exchange_weak"}) if b is not sg]
     if other_writers:
-        ck.bad("C02.R4", "GLOBAL_INIT written only in set_global_default", other_writers[0], "GLOBAL_INIT modified in %s" % other_writers)
+        ck.bad(rid, "GLOBAL_INIT written only in set_global_default", other_writers[0], "GLOBAL_INIT modified in %s" % other_writers)
     else:
-        ck.ok("C02.R4", "GLOBAL_INIT written only in set_global_default")
+        ck.ok(rid, "GLOBAL_INIT written only in set_global_default")
     ok = len(cas) == 1 and len(stores) == 1
     msg = ""
     if ok:
@@ -502,10 +502,10 @@ def r4(ck, F):
     else:
         msg = "expected exactly one compare_exchange and one store on GLOBAL_INIT (found %d, %d)" % (len(cas), len(stores))
     if ok:
-        ck.ok("C02.R4", "set_global_default: CAS-guarded write, then publish", fn=sg.path,
+        ck.ok(rid, "set_global_default: CAS-guarded write, then publish", fn=sg.path,
               detail="compare_exchange(UNINITIALIZED->INITIALIZING) success => GLOBAL_DISPATCH = ..; store(INITIALIZED); Ok(()) | failure => Err")
     else:
-        ck.bad("C02.R4", "set_global_default: CAS-guarded write, then publish", where(sg.raw["sp"]), msg, fn=sg.path)
+        ck.bad(rid, "set_global_default: CAS-guarded write, then publish", where(sg.raw["sp"]), msg, fn=sg.path)
     # guarded read
     loads = [(bb, t) for b, bb, t, m in atomic_calls(F, GI, {"load"}) if b is gg]
     ok = len(loads) == 1
@@ -537,9 +537,9 @@ def r4(ck, F):
         elif ORD_RANK.get(o, 0) < 1 or o == "Release":
             ok, msg = False, "GLOBAL_INIT.load(%s): needs Acquire or stronger" % o
     if ok:
-        ck.ok("C02.R4", "get_global: read guarded by INITIALIZED (Acquire)", fn=gg.path)
+        ck.ok(rid, "get_global: read guarded by INITIALIZED (Acquire)", fn=gg.path)
     else:
-        ck.bad("C02.R4", "get_global: read guarded by INITIALIZED (Acquire)", where(gg.raw["sp"]), msg, fn=gg.path)
+        ck.bad(rid, "get_global: read guarded by INITIALIZED (Acquire)", where(gg.raw["sp"]), msg, fn=gg.path)
 
 
 # ---------------------------------------------------------------------- R5
